@@ -145,15 +145,6 @@ def groups_of(tree, subtrees=True):
 DUMMY_BOXES = dict(bbox=[0, 0, 0, 0], abs_bbox=[0, 0, 0, 0], sbbox=[0, 0, 0, 0], abs_sbbox=[0, 0, 0, 0], lbbox=[0, 0, 1, 1], abs_lbbox=[0, 0, 1, 1])
 
 
-def synth_clip_root_class(path, g, info):
-    """KNOWN class synth_clip_root_boxes: the group is the root of a clip path (path ends in `#clipN`) that usvg synthesised for
-    a viewport (marker.rs, use_node.rs clip_element, image.rs: one rectangle made by Path::new_simple, no id, identity
-    transforms) and ALL its boxes are still the dummies of Group::empty(): calculate_bounding_boxes was never called on it."""
-    return (re.search(r"#clip\d+$", path) is not None and len(g['children']) == 1 and g['children'][0]['t'] == 'path'
-            and g['children'][0]['id'] == '' and g['id'] == '' and ts_near(g['children'][0]['abs_ts'], ID6)
-            and all(list(g[k]) == v for k, v in DUMMY_BOXES.items()))
-
-
 def pattern_pushed_class(g, info):
     """KNOWN class pattern_pushed_transform: the group lies in a pattern sub-tree at or below the wrapper P made by
     paint_server.rs push_pattern_transform (transform == abs_transform != identity directly below the pattern root), and its
@@ -642,7 +633,8 @@ def run(ctx):
         return
 
     files = vlib.corpus_files()
-    wit = [os.path.join(vlib.VERIF, 'corpus', 'witness', f) for f in ('F21.svg', 'F14.svg', 'C12-background.svg', 'C12-stroke-skew.svg', 'C12-dash-caps.svg', 'C12-nested-svg-transform.svg', 'C12-leaf-export-crop.svg', 'C12-pattern-pushed-transform.svg')]
+    wit = [os.path.join(vlib.VERIF, 'corpus', 'witness', f) for f in ('F21.svg', 'F14.svg', 'C12-background.svg', 'C12-stroke-skew.svg', 'C12-dash-caps.svg', 'C12-nested-svg-transform.svg', 'C12-leaf-export-crop.svg', 'C12-pattern-pushed-transform.svg',
+                                                                   'C12-synth-clip-nested-svg.svg', 'C12-synth-clip-image.svg')]
     wit = [w for w in wit if os.path.exists(w)]
     sample = list(files) if not quick else rng.sample(files, 500)
     must = [f for f in files if re.search(r"structure/(use|symbol|svg|image)/|painting/marker/|filters/filter/|masking/", f)]
@@ -650,7 +642,8 @@ def run(ctx):
         must = rng.sample(must, min(150, len(must)))
     # every tier, every seed: all files that exercise transform / transform-origin resolution (the abs-transform-is-product
     # invariant depends on the attribute combination, and the corpus has a single file with transform-origin on a container)
-    always = [f for f in files if re.search(r"structure/(transform-origin|transform)/", f)]
+    # + painting/marker/inheritance-2.svg: the marker viewport clip root whose boxes were the dummies until fd607e1
+    always = [f for f in files if re.search(r"structure/(transform-origin|transform)/|painting/marker/inheritance-2\.svg$", f)]
     sample = sorted(set(sample + must + always)) + wit
     gdocs = gen_docs(rng, 130 if quick else 1200)
     odocs = origin_docs()
@@ -725,7 +718,6 @@ def run(ctx):
         elif reported < 3:
             ctx.violation(text, rep)
             reported += 1
-    nbox = 0
     nrep_box = 0
     # box mismatches at / below a push_pattern_transform wrapper: the class holds iff the reported boxes are exactly the model's
     # recomputation under the abs_transform the group had BEFORE the push (decided inside Coq as well)
@@ -751,13 +743,6 @@ def run(ctx):
                                        dict(op='bbox/boxes', doc=d, group_path=path, abs_ts=g['abs_ts'], abs_ts_before_push=info['stale'],
                                             reported={k: g[k] for k in DUMMY_BOXES}))
             npat += 1
-            continue
-        if synth_clip_root_class(path, g, info):
-            if nbox == 0:
-                ctx.known_or_violation('synth_clip_root_boxes', "bbox: the root of the synthesised viewport clip path %s of %s still has the dummy boxes "
-                                       "of Group::empty() (child rectangle %s)" % (path, name, g['children'][0]['bbox']),
-                                       dict(op='bbox/boxes', doc=d, group_path=path, reported={k: g[k] for k in DUMMY_BOXES}))
-            nbox += 1
             continue
         nrep_box += 1
         if nrep_box > 3:
